@@ -369,7 +369,7 @@ func execSlinkAt(f []string, now int64) string {
 	if slMod == nil {
 		slMod = mod_secure_link.VerifNew()
 	}
-	ver := "verif"
+	ver := curVersion
 	cf := &mod_secure_link.DataFile{Version: &ver, Config: mod_secure_link.ProductRulesFile{}}
 	if f[0] == "1" {
 		cf.Config[product] = rfs
